@@ -164,7 +164,10 @@ def run(ctx):
                     kind = "resubmitted"
                 elif sub < 0.85 and free:
                     r, o = free[0]
-                    bad = rng.choice(["overspend", "zero", "wrongkey", "nosig", "noinputs", "dupref"])
+                    bad = rng.choice(["overspend", "zero", "wrongkey", "nosig", "noinputs", "dupref", "halfsigned", "halfsigned"])
+                    same_key = [(r2, o2) for r2, o2 in free[1:] if o2.public_key.public_key == o.public_key.public_key]
+                    if bad == "halfsigned" and not same_key:
+                        bad = "wrongkey"
                     if bad == "overspend":
                         tx = chain.make_tx(keys, utxo, [r], [(o.value + 1, 0)])
                     elif bad == "zero":
@@ -175,6 +178,14 @@ def run(ctx):
                     elif bad == "nosig":
                         t0 = chain.make_tx(keys, utxo, [r], [(o.value, 0)])
                         tx = Transaction([Input(r, SignableEquivalent())], t0.outputs)
+                    elif bad == "halfsigned":
+                        # two outputs of one key spent together: the first input carries the owner's signature, the last one
+                        # 64 bytes that are no signature of anything
+                        r2, o2 = same_key[0]
+                        t0 = chain.make_tx(keys, utxo, [r, r2], [(o.value + o2.value, 0)])
+                        from skepticoin.signing import SECP256k1Signature
+                        tx = Transaction([t0.inputs[0], Input(r2, SECP256k1Signature(bytes(rng.getrandbits(8) for _ in range(64))))],
+                                         t0.outputs)
                     elif bad == "noinputs":
                         tx = Transaction([], [Output(5, keys.pk(0))])
                     else:
